@@ -438,6 +438,17 @@ func TestVerifC11Child(t *testing.T) {
 			if !held || c == nil {
 				return "gate-script-infeasible/registration-not-reached"
 			}
+			// the released handshake goes on to its registration section: only when it has been through it can the view be
+			// asked whether anything of it is left (before that the view is empty because nothing has been registered yet)
+			vWaitUntil(2*time.Second, func() bool {
+				for _, e := range verifrt.Trace() {
+					if e.Label == vLRegLock && e.Kind == "post" {
+						return true
+					}
+				}
+				return false
+			})
+			time.Sleep(30 * time.Millisecond)
 			if !vWaitUntil(3*time.Second, func() bool { return w.ls.S.OpenConnections() == 0 && !w.listed(0) }) {
 				return fmt.Sprintf("session-of-a-departed-peer-stays-registered/open=%d", w.ls.S.OpenConnections())
 			}
@@ -607,6 +618,36 @@ func TestVerifC11Child(t *testing.T) {
 			}
 			if !vServed(a) {
 				return "session-disturbed-by-concurrent-use"
+			}
+			return ""
+		})
+		// a key which an earlier update put on the list is taken off it by a later one while it is connected: its session is
+		// dropped like that of a key of the initial list - twice, so that whatever the first round left behind is used
+		vRegScenario(r, "revoked-after-an-update-had-listed-it", []int{1}, func(w *vRegWorld) string {
+			for round := 0; round < 2; round++ {
+				if err := w.update([]int{0, 1}); err != nil {
+					return "update-refused"
+				}
+				a, err := w.dial(0)
+				if err != nil || !vServed(a) {
+					return fmt.Sprintf("listed-key-not-served/round %d", round)
+				}
+				b, err := w.dial(1)
+				if err != nil {
+					return "handshake-failed"
+				}
+				if err := w.update([]int{1, 2}); err != nil {
+					return "update-refused"
+				}
+				time.Sleep(30 * time.Millisecond)
+				if vServed(a) || w.listed(0) {
+					return fmt.Sprintf("revoked-key-keeps-its-session/round %d", round)
+				}
+				if !vServed(b) {
+					return "bystander-dropped-by-a-revocation"
+				}
+				w.die(b, 1)
+				vWaitUntil(2*time.Second, func() bool { return w.ls.S.OpenConnections() == 0 })
 			}
 			return ""
 		})
